@@ -297,7 +297,8 @@ class World:
                         else:
                             if not any(r.id == U[j].id for r in before):
                                 raise IndexError
-                            exp.append(U[j])
+                            # an object is looked up by its identifier: the answer is the list's own element
+                            exp.append([r for r in before if r.id == U[j].id][0])
                 except IndexError:
                     exp = None
                 got = dl.get_by_any(items)
